@@ -3,6 +3,7 @@ import XPathV.Generated.ExtraFacts
 import XPathV.Model.Api
 import XPathV.Lemmas.Facts
 import XPathV.Lemmas.PredSem
+import XPathV.Lemmas.PredSem2
 import XPathV.Lemmas.Pull2Proofs
 /-!
 # C02 — boolean predicates keep exactly the nodes for which the predicate is true
@@ -151,5 +152,58 @@ theorem evaluate_restarts_all_iterators (d : Doc) (cfg : ECfg) (dec : Plan → R
       (∃ q' c' f0, ∀ f, f0 ≤ f → drain2 d cfg dec f q.evaluate c = some (l, q', c')) ∧
       (∀ f l' q' c', drain2 d cfg dec f q.evaluate c = some (l', q', c') → l' = l) :=
   reach_evaluate_restarts d cfg dec hd p0 hw q hr hdec c hg
+
+open XPathV.PathSem XPathV.PredSem XPathV.PredSem2 in
+/-- **C02 at the property's full list of predicate forms** (`Frag2` ⊇ `Frag`): in addition to
+existence tests, path `=`/`!=` string literal, path *op* number literal, `not()`, `and`, `or` and
+nesting, the predicates may be `count(P) op n` / `n op count(P)`, `contains`/`starts-with`/
+`ends-with` of a string literal, `local-name()`, `local-name(P)` or a path `P` against a literal,
+`local-name() =`/`!=` `'lit'`, `local-name(P) =`/`!=` `'lit'`, and the filtered path may be
+parenthesised (`(P)[b]`).  A path used as a *function argument* must be flat (child/attribute/self
+steps with any fragment predicates): the engine hands a function its result *sequence* (length,
+first element), the oracle the document-ordered *set*; they coincide exactly when the sequence is
+sorted and duplicate-free, which `FlatFiltered.flatAny_sorted` proves for flat paths.  Paths in
+every other position range over all twelve axes. -/
+theorem C02_main_full {d : Doc} (wf : WF d) (cfg : ECfg) (hns : cfg.nsIface = true)
+    (hinj : HashInj d cfg) (regexOk : RegexOk) (limit : Nat) (p : Ast) (hp : Frag2 true p)
+    (st : BState) (o : BOut) (hb : build regexOk limit true false p {} st = .ok o)
+    (c : Ref) (hc : validRef d c = true) :
+    ∃ out ns g, sel (F := F) d cfg o.q c = .ok out ∧
+      Spec.eval (F := F) d p ⟨c, 1, 1⟩ = .ok (.val (.nodes ns) g) ∧
+      ∀ x, x ∈ refs out ↔ x ∈ ns :=
+  C02_main2 wf cfg hns hinj regexOk limit p hp st o hb c hc
+
+open XPathV.PathSem XPathV.PredSem XPathV.PredSem2 in
+/-- … the property as stated, on the full list: `p[b]` (and `(p)[b]`) keeps a candidate iff
+`boolean(b)` is true there -/
+theorem C02_keeps_exactly_the_true_ones_full {d : Doc} (wf : WF d) (cfg : ECfg) (hns : cfg.nsIface = true)
+    (hinj : HashInj d cfg) (regexOk : RegexOk) (limit : Nat) (p b : Ast) (hp : Frag2 true p)
+    (hb : Frag2 false b) (st0 st : BState) (o0 o : BOut)
+    (hb0 : build regexOk limit true false p {} st0 = .ok o0)
+    (hb1 : build regexOk limit true false (.filter p b) {} st = .ok o)
+    (c : Ref) (hc : validRef d c = true) :
+    ∃ out0 ns0 g0 out ns g,
+      sel (F := F) d cfg o0.q c = .ok out0 ∧
+      Spec.eval (F := F) d p ⟨c, 1, 1⟩ = .ok (.val (.nodes ns0) g0) ∧
+      (∀ x, x ∈ refs out0 ↔ x ∈ ns0) ∧
+      sel (F := F) d cfg o.q c = .ok out ∧
+      Spec.eval (F := F) d (.filter p b) ⟨c, 1, 1⟩ = .ok (.val (.nodes ns) g) ∧
+      (∀ x, x ∈ refs out ↔ x ∈ ns) ∧
+      (∀ x, x ∈ refs out ↔ x ∈ refs out0 ∧ holds (F := F) d b x = true) ∧
+      (∀ x, x ∈ ns ↔ x ∈ ns0 ∧ holds (F := F) d b x = true) :=
+  C02_keeps_true2 wf cfg hns hinj regexOk limit p b hp hb st0 st o0 o hb0 hb1 c hc
+
+open XPathV.PathSem XPathV.PredSem XPathV.PredSem2 in
+/-- the truth of a built predicate never depends on the context position/size and is never a
+number: every plan the builder makes of a predicate of the fragment evaluates, at every valid
+node, to a boolean or node-set whose truth is `boolean()` of the oracle's value -/
+theorem C02_built_predicate_truth {d : Doc} (wf : WF d) (cfg : ECfg) (hns : cfg.nsIface = true)
+    (hinj : HashInj d cfg) (regexOk : RegexOk) (limit : Nat) (b : Ast) (hb : Frag2 false b)
+    (fl : Flags) (st : BState) (o : BOut) (hbuild : build regexOk limit true false b fl st = .ok o)
+    (c : Ref) (hc : validRef d c = true) (pos size : Nat) :
+    ∃ v sv g, evalP (F := F) d cfg o.q c = .ok v ∧
+      Spec.eval (F := F) d b ⟨c, pos, size⟩ = .ok (.val sv g) ∧
+      truthM v = Spec.toBool sv ∧ IsBN v ∧ NotNum sv :=
+  built_pred_truth2 wf cfg hns hinj regexOk limit b hb fl st o hbuild c hc pos size
 
 end XPathV.Theorems.C02
